@@ -247,7 +247,9 @@ class ServerNode:
     replaced by recording stubs: a subroutine 'executes' by returning register M5 := len(subroutine) through the
     handler's own _return_msg, everything else returns nothing) + real NetQASMProtocol per connection"""
 
-    def __init__(self):
+    def __init__(self, slow=False):
+        """slow=True: the backend is asynchronous — a subroutine 'executes' only when the harness fires its Deferred (self.pending), so that
+        several messages of one connection are in flight at the same time, as with the real executioner"""
         from simulaqron.netqasm_backend.factory import NetQASMFactory
         from simulaqron.netqasm_backend.qnodeos import SubroutineHandler
         from netqasm.backend import messages as Mg
@@ -258,10 +260,21 @@ class ServerNode:
         self.cur = None
         self.stops = 0
         self.crashes = []      # exceptions other than the ValueError of the deserialisers
+        self.pending = []      # Deferreds of subroutines still 'executing' (slow backend only)
 
         class RecordingHandler(SubroutineHandler):
             def _get_message_handlers(self_h):
                 def on_sub(msg):
+                    if slow:
+                        return on_sub_slow(msg)
+                    self_h._return_msg(msg=Mg.ReturnRegMessage(register=enc.Register.from_buffer_copy(bytes([23])),
+                                                               value=len(msg.subroutine)))
+
+                def on_sub_slow(msg):
+                    from twisted.internet.defer import Deferred
+                    d = Deferred()
+                    node.pending.append(d)
+                    yield d
                     self_h._return_msg(msg=Mg.ReturnRegMessage(register=enc.Register.from_buffer_copy(bytes([23])),
                                                                value=len(msg.subroutine)))
 
